@@ -100,7 +100,7 @@ def _run_one(args):
     known = core.load_known()
     fired = sorted({i.rule for i in res.instances if not i.ok and core.match_known(i, known) is None})
     if m.expect == 'silent':
-        still = sorted({i.rule for i in res.instances if not i.ok})
+        still = sorted({i.rule for i in res.instances if not i.ok and i.file == m.file})
         if res.errors:
             return (m.id, 'error_only', '; '.join(e.splitlines()[0] for e in res.errors)[:300], [])
         if m.rule in still:
